@@ -198,9 +198,10 @@ type importUsed bool
 
 type File struct {
 	fileDecls
-	fname string
-	imps  map[string]*ast.Ident // importPath => impRef (nil means force-import)
-	dirty bool
+	fname  string
+	imps   map[string]*ast.Ident // importPath => impRef (nil means force-import)
+	forced map[string]none       // force-imported paths (kept even if also referenced by name)
+	dirty  bool
 }
 
 func newFile(fname string) *File {
@@ -218,10 +219,20 @@ func (p *File) newImport(name, pkgPath string) *ast.Ident {
 }
 
 func (p *File) forceImport(pkgPath string) {
+	if p.forced == nil {
+		p.forced = make(map[string]none)
+	}
+	p.forced[pkgPath] = none{}
 	if _, ok := p.imps[pkgPath]; !ok {
 		p.imps[pkgPath] = nil
 		p.dirty = true
 	}
+}
+
+// isForced reports whether pkgPath must be imported even if no reference to it remains.
+func (p *File) isForced(pkgPath string) bool {
+	_, ok := p.forced[pkgPath]
+	return ok
 }
 
 func (p *File) markUsed(this *Package) {
@@ -254,7 +265,7 @@ const (
 func (p *File) CheckXGoDeps(this *Package) (flags int) {
 	p.markUsed(this)
 	for pkgPath, id := range p.imps {
-		if id == nil || id.Obj.Data.(importUsed) {
+		if id == nil || bool(id.Obj.Data.(importUsed)) || p.isForced(pkgPath) {
 			if isPkgInMod(pkgPath, "github.com/qiniu/x") {
 				flags |= FlagDepModX
 			} else if isPkgInMod(pkgPath, "github.com/goplus/xgo") ||
@@ -270,7 +281,7 @@ func (p *File) getDecls(this *Package) (decls []ast.Decl) {
 	p.markUsed(this)
 	specs := make([]ast.Spec, 0, len(p.imps))
 	for pkgPath, id := range p.imps {
-		if id == nil { // force-used
+		if id == nil || (p.isForced(pkgPath) && !bool(id.Obj.Data.(importUsed))) { // force-used
 			specs = append(specs, &ast.ImportSpec{
 				Name: underscore, // _
 				Path: astStringLit(pkgPath),
